@@ -36,14 +36,14 @@ static void harness(void) {
     CHECK(el == n, "length of the encoding per Table 3-6");
     check_string(o, e, el);
   }
-  REACH(sc && o[1] == c17_npre + 1, "1-byte encoding produced");
-  REACH(sc && o[1] == c17_npre + 2, "2-byte encoding produced");
-  REACH(sc && o[1] == c17_npre + 3 && cp > 0xDFFF, "3-byte encoding produced above the surrogates");
-  REACH(sc && o[1] == c17_npre + 4 && c17_npre == 3, "4-byte encoding appended to a 3-byte prefix");
-  REACH(cp == 0x10FFFF && o[0] == 1, "U+10FFFF accepted");
-  REACH(!sc && cp <= 0xFFFF && o[0] == 0, "surrogate rejected");
-  REACH(cp == 0x110000 && o[0] == 0, "U+110000 rejected");
-  REACH(cp > 0x7fffffffULL && o[0] == 0, "value with the top bit set rejected");
+  REACH(sc && cp <= 0x7F, "1-byte encoding expected");
+  REACH(sc && cp > 0x7F && cp <= 0x7FF, "2-byte encoding expected");
+  REACH(sc && cp > 0xDFFF && cp <= 0xFFFF, "3-byte encoding expected above the surrogates");
+  REACH(sc && cp > 0xFFFF && c17_npre == 3, "4-byte encoding appended to a 3-byte prefix");
+  REACH(cp == 0x10FFFF, "U+10FFFF");
+  REACH(!sc && cp <= 0xFFFF, "surrogate");
+  REACH(cp == 0x110000, "U+110000");
+  REACH(cp > 0x7fffffffULL, "value with the top bit set");
 }
 #endif
 
@@ -75,7 +75,7 @@ static void harness(void) {
 #if !defined(VF_SPLIT) || defined(V_s8)
   if (n <= 2) { w_unhex_string_c(buf, n, o);  CHECK(o[0] == ex, "unhex_string<char>: positional value of up to 2 digits"); OBS(o[0]);
                 w_unhex_string_uc(buf, n, o); CHECK(o[0] == ex, "unhex_string<unsigned char>: positional value of up to 2 digits");
-                REACH(n == 2 && ex == 0xff, "two digits, all bits set"); REACH(n == 0 && o[0] == 0, "empty numeral is zero"); }
+                REACH(n == 2 && ex == 0xff, "two digits, all bits set"); REACH(n == 0, "empty numeral"); }
 #endif
 #if !defined(VF_SPLIT) || defined(V_s32)
   if (n <= 8) { w_unhex_string_u(buf, n, o); CHECK(o[0] == ex, "unhex_string<unsigned>: positional value of up to 8 digits"); OBS(o[0]);
@@ -114,15 +114,15 @@ static void harness(void) {
     CHECK(o[0] == 1, "unescape_c returns normally for a permitted character");
     app[0] = json_r[kj]; check_string(o, app, 1);
     OBS(o[1]); OBS(o[2 + c17_npre]);
-    REACH(kj == 7 && o[2 + c17_npre] == 9 && c17_npre == 2, "JSON \\t after a 2-byte prefix");
-    REACH(kj == 0 && o[2] == '"' && c17_npre == 0, "JSON \\\" into the empty string");
+    REACH(kj == 7 && c17_npre == 2, "JSON \\t after a 2-byte prefix");
+    REACH(kj == 0 && c17_npre == 0, "JSON \\\" into the empty string");
     b[0] = ex_q[ke];
     w_c_ex(b, 1, c17_pre, c17_npre, o);
     CHECK(o[0] == 1, "unescape_c (C set) returns normally for a permitted character");
     app[0] = ex_r[ke]; check_string(o, app, 1);
     OBS(o[2 + c17_npre]);
-    REACH(ke == 10 && o[2 + c17_npre] == 0x0B, "C \\v");
-    REACH(ke == 4 && o[2 + c17_npre] == 0x07, "C \\a"); }
+    REACH(ke == 10, "C \\v");
+    REACH(ke == 4, "C \\a"); }
 #endif
 #if !defined(VF_SPLIT) || defined(V_x)
   { /* "xHH" (and the degenerate "x", "xH"): first character skipped whatever it is, the digits give the byte */
@@ -135,9 +135,9 @@ static void harness(void) {
     app[0] = nx == 1 ? 0 : nx == 2 ? xd_val(d0) : xd_val(d0) * 16 + xd_val(d1);
     check_string(o, app, 1);
     OBS(o[2 + c17_npre]);
-    REACH(nx == 3 && o[2 + c17_npre] == 0xff && first == 'x', "\\xff");
-    REACH(nx == 3 && o[2 + c17_npre] == 0x00 && c17_npre == 3, "\\x00 appended after a 3-byte prefix");
-    REACH(nx == 3 && o[2 + c17_npre] == 0x7f, "\\x7f"); }
+    REACH(nx == 3 && app[0] == 0xff && first == 'x', "\\xff");
+    REACH(nx == 3 && app[0] == 0x00 && c17_npre == 3, "\\x00 appended after a 3-byte prefix");
+    REACH(nx == 3 && app[0] == 0x7f, "\\x7f"); }
 #endif
 #if !defined(VF_SPLIT) || defined(V_all)
   { u8 *b = (u8 *)exact_alloc_n(na, C17_NALL);
@@ -147,8 +147,8 @@ static void harness(void) {
     for (u64 i = 0; i < 12; ++i) app[i] = i < C17_NALL ? all[i] : 0;
     check_string(o, app, na);
     OBS(o[1]);
-    REACH(na == C17_NALL && c17_npre == 3 && o[1] == C17_NALL + 3, "longest matched input appended to a 3-byte prefix");
-    REACH(na == 0 && o[1] == c17_npre, "empty match appends nothing"); }
+    REACH(na == C17_NALL && c17_npre == 3, "longest matched input appended to a 3-byte prefix");
+    REACH(na == 0, "empty match"); }
 #endif
 }
 #endif
@@ -170,7 +170,7 @@ static void harness(void) {
   for (u64 i = 0; i < C17_MAXPRE; ++i) if (i < c17_npre) CHECK(o[2 + i] == c17_pre[i], "previous content of the string preserved across reallocation");
   for (u64 i = 0; i < NG; ++i) if (i < na) CHECK(o[2 + c17_npre + i] == all[i], "appended bytes are the matched bytes");
   OBS(o[1]); OBS(o[2 + 27]);
-  REACH(na == NG && o[1] == NG + c17_npre, "longest match appended (result beyond the 15-byte short-string capacity)");
+  REACH(na == NG, "longest match appended (result beyond the 15-byte short-string capacity)");
   REACH(c17_npre + na == 16, "first length that needs the heap");
   REACH(c17_npre + na == 15, "last length that fits the short-string buffer");
 }
@@ -203,12 +203,13 @@ static void harness(void) {
     CHECK(o[0] == 2, "unescape_u throws parse_error for surrogates and values above U+10FFFF");
     check_string(o, e, 0);                        /* nothing appended */
   }
-  REACH(nd == 4 && first == 'u' && o[0] == 1 && o[1] == c17_npre + 3, "\\uXXXX with a 3-byte encoding");
-  REACH(nd == 4 && o[0] == 2, "\\uXXXX surrogate rejected");
-  REACH(nd == 8 && first == 'U' && o[0] == 1 && o[1] == c17_npre + 4, "\\UXXXXXXXX with a 4-byte encoding");
-  REACH(nd == 8 && o[0] == 2 && cp > 0x7fffffffULL, "\\UXXXXXXXX above U+10FFFF rejected");
-  REACH(nd == 8 && o[0] == 2 && cp >= 0xD800 && cp <= 0xDFFF, "\\U0000DXXX surrogate rejected");
-  REACH(nd == 2 && o[0] == 1 && o[1] == c17_npre + 2, "two digits, 2-byte encoding");
+  REACH(nd == 4 && first == 'u' && is_scalar(cp) && cp > 0x7FF, "\\uXXXX with a 3-byte encoding");
+  REACH(nd == 4 && !is_scalar(cp), "\\uXXXX surrogate");
+  REACH(nd == 8 && first == 'U' && is_scalar(cp) && cp > 0xFFFF, "\\UXXXXXXXX with a 4-byte encoding");
+  REACH(nd == 8 && cp > 0x7fffffffULL, "\\UXXXXXXXX with the top bit set");
+  REACH(nd == 8 && cp >= 0xD800 && cp <= 0xDFFF, "\\U0000DXXX surrogate");
+  REACH(nd == 8 && cp == 0x110000, "\\U00110000");
+  REACH(nd == 2 && cp > 0x7F, "two digits, 2-byte encoding");
 }
 #endif
 
@@ -292,28 +293,28 @@ static void harness(void) {
 #define HAS_NE(k) ((k) <= C17_MAXE)
 #endif
 #if HAS_NE(1)
-  REACH(ne == 1 && o[0] == 1 && o[1] == c17_npre + 3, "one BMP escape, 3-byte encoding");
-  REACH(ne == 1 && o[0] == 2 && is_high(v[0]), "lone high surrogate at the end rejected");
-  REACH(ne == 1 && o[0] == 2 && is_low(v[0]), "lone low surrogate rejected");
+  REACH(ne == 1 && !lone && el == 3, "one BMP escape, 3-byte encoding");
+  REACH(ne == 1 && lone && is_high(v[0]), "lone high surrogate at the end rejected");
+  REACH(ne == 1 && lone && is_low(v[0]), "lone low surrogate rejected");
 #endif
 #if HAS_NE(2)
-  REACH(ne == 2 && o[0] == 1 && pairs == 1 && o[1] == c17_npre + 4, "surrogate pair combined into one 4-byte encoding");
-  REACH(ne == 2 && o[0] == 2 && is_high(v[0]) && !is_low(v[1]) && is_scalar(v[1]), "high surrogate followed by a BMP escape rejected");
-  REACH(ne == 2 && o[0] == 2 && is_high(v[0]) && is_high(v[1]), "two high surrogates rejected");
-  REACH(ne == 2 && o[0] == 1 && pairs == 0 && o[1] == c17_npre + 2, "two ASCII escapes encoded individually");
+  REACH(ne == 2 && !lone && pairs == 1 && el == 4, "surrogate pair combined into one 4-byte encoding");
+  REACH(ne == 2 && lone && is_high(v[0]) && !is_low(v[1]) && is_scalar(v[1]), "high surrogate followed by a BMP escape rejected");
+  REACH(ne == 2 && lone && is_high(v[0]) && is_high(v[1]), "two high surrogates rejected");
+  REACH(ne == 2 && !lone && pairs == 0 && el == 2, "two ASCII escapes encoded individually");
 #endif
 #if HAS_NE(3)
-  REACH(ne == 3 && o[0] == 1 && pairs == 1 && is_high(v[0]) && o[1] == c17_npre + 7, "pair followed by a BMP escape");
-  REACH(ne == 3 && o[0] == 1 && pairs == 1 && is_high(v[1]) && o[1] == c17_npre + 7, "BMP escape followed by a pair");
-  REACH(ne == 3 && o[0] == 2 && pairs == 1 && is_low(v[2]), "pair followed by a lone low surrogate rejected");
-  REACH(ne == 3 && o[0] == 2 && is_high(v[0]) && is_high(v[1]) && is_low(v[2]), "high, high, low rejected (first high is alone)");
-  REACH(ne == 3 && o[0] == 1 && pairs == 0 && o[1] == c17_npre + 9 && c17_npre == 3, "three 3-byte escapes after a 3-byte prefix");
+  REACH(ne == 3 && !lone && pairs == 1 && is_high(v[0]) && el == 7, "pair followed by a BMP escape");
+  REACH(ne == 3 && !lone && pairs == 1 && is_high(v[1]) && el == 7, "BMP escape followed by a pair");
+  REACH(ne == 3 && lone && pairs == 1 && is_low(v[2]), "pair followed by a lone low surrogate rejected");
+  REACH(ne == 3 && lone && is_high(v[0]) && is_high(v[1]) && is_low(v[2]), "high, high, low rejected (first high is alone)");
+  REACH(ne == 3 && !lone && pairs == 0 && el == 9 && c17_npre == 3, "three 3-byte escapes after a 3-byte prefix");
 #endif
 #if HAS_NE(4)
-  REACH(ne == 4 && o[0] == 1 && pairs == 2 && o[1] == c17_npre + 8, "two surrogate pairs");
-  REACH(ne == 4 && o[0] == 1 && pairs == 1 && is_high(v[1]) && o[1] == c17_npre + 10, "BMP, pair, BMP");
-  REACH(ne == 4 && o[0] == 2 && pairs == 1 && is_high(v[0]) && is_high(v[2]) && !is_low(v[3]), "pair followed by a lone high surrogate rejected");
-  REACH(ne == 4 && o[0] == 1 && pairs == 0 && o[1] == c17_npre + 12 && c17_npre == 3, "four 3-byte escapes after a 3-byte prefix");
+  REACH(ne == 4 && !lone && pairs == 2 && el == 8, "two surrogate pairs");
+  REACH(ne == 4 && !lone && pairs == 1 && is_high(v[1]) && el == 10, "BMP, pair, BMP");
+  REACH(ne == 4 && lone && pairs == 1 && is_high(v[0]) && is_high(v[2]) && !is_low(v[3]), "pair followed by a lone high surrogate rejected");
+  REACH(ne == 4 && !lone && pairs == 0 && el == 12 && c17_npre == 3, "four 3-byte escapes after a 3-byte prefix");
 #endif
 }
 #endif
